@@ -206,7 +206,8 @@ def phase_hist(a, cat):
             ent = {e["id"]: e for e in cat["entries"]}
             samples.append({"history": h, "mode": hist["mode"], "threads": hist["threads"],
                             "families": hist["families"], "length": len(hist["ops"]),
-                            "first_ops": [(op["k"] + (":" + ent[op["e"]]["op"] + "#%d" % op["e"] if "e" in op else ""))
+                            "first_ops": [(op["k"] + (":" + ent[op["e"]]["op"] + "#%d" % op["e"]
+                                                        if isinstance(op.get("e"), int) else ""))
                                           for op in hist["ops"][:25]]})
         for v in val["violations"]:
             sig = signature(a.prop, v)
@@ -288,8 +289,16 @@ def report(a, cat, hist, v, sig):
             if size == 1:
                 break
             n = min(len(body), n * 2)
-    used = [op["e"] for op in ops if "e" in op]
+    used = []
+    for op in ops:
+        if "e" in op:
+            used.extend(op["e"] if isinstance(op["e"], list) else [op["e"]])
     sub = gen_subset(cat, used)
+    for op in ops:
+        if op["k"] == "edit":
+            for rid in (op["a"], op["b"]):
+                sub["pool"][rid] = cat["pool"][rid]
+    sub["twins"] = cat.get("twins", [])
     diff = None
     if refs_needed and "_canon" in best_v:
         try:
